@@ -81,9 +81,20 @@ def binImgs(data, n):
     
     n = int(numpy.round(n))
 
-    # accumulate like numpy.sum does: integer and boolean frames in a wide
-    # integer, so that block sums do not wrap around in e.g. uint8 / uint16
-    acc_dtype = numpy.zeros(1, dtype=data.dtype).sum().dtype
+    # integer and boolean frames are accumulated in the narrowest integer type
+    # that holds a sum of n*n pixels (uint8 / uint16 sums would wrap around in
+    # the type of the frame; 64 bits throughout would multiply the memory of a
+    # big stack by up to eight)
+    acc_dtype = data.dtype
+    if data.dtype.kind in "iub":
+        bits = (1 if data.dtype.kind == "b" else 8 * data.dtype.itemsize) + int(numpy.ceil(numpy.log2(max(n * n, 1))))
+        signed = data.dtype.kind == "i"
+        for candidate in ((numpy.int16, numpy.int32, numpy.int64) if signed else (numpy.uint8, numpy.uint16, numpy.uint32, numpy.uint64)):
+            if numpy.iinfo(candidate).bits >= bits and numpy.iinfo(candidate).bits >= 8 * data.dtype.itemsize:
+                acc_dtype = numpy.dtype(candidate)
+                break
+        else:
+            acc_dtype = numpy.dtype(numpy.int64 if signed else numpy.uint64)
 
     if len(data.shape)==2:
         shape[-1]/=n
